@@ -28,6 +28,11 @@ func docsEqual(a, b bsonkit.Doc) bool {
 // values are compared by their BSON encoding as interface comparison panics
 // for document, array and binary values.
 func idsEqual(a, b interface{}) bool {
+	// a missing _id encodes like an empty document
+	if (a == bsonkit.Missing) != (b == bsonkit.Missing) {
+		return false
+	}
+
 	return docsEqual(&bson.D{{Key: "_id", Value: a}}, &bson.D{{Key: "_id", Value: b}})
 }
 
